@@ -101,8 +101,12 @@ func (s *scope) push(indirect bool) *scope {
 		sc.global = s.global
 		sc.level = s.level
 	}
-	// inherit loop state and pkgID from ancestor
-	sc.loop, sc.loopRestart, sc.pkgID = s.loop, s.loopRestart, s.pkgID
+	// inherit pkgID from ancestor, and the loop state inside the same function only:
+	// the body of a function literal is not in the loops which enclose the literal.
+	sc.pkgID = s.pkgID
+	if !indirect {
+		sc.loop, sc.loopRestart = s.loop, s.loopRestart
+	}
 	return sc
 }
 
